@@ -47,6 +47,14 @@ type heldLock struct {
 
 type gstate struct {
 	held []heldLock
+	// the blocking call this goroutine is in (between the want hook and the got hook)
+	waiting  bool
+	wantAddr uintptr
+	wantMode byte
+	wantCls  string
+	wantSite string
+	wantAt   time.Time
+	wantSeq  uint64
 }
 
 var (
@@ -147,14 +155,14 @@ func pin(own uintptr, ptr unsafe.Pointer, addr uintptr) {
 	}
 }
 
-func want(addr, own uintptr, cls string, mode byte, site string) uint64 {
+func want(ptr unsafe.Pointer, addr, own uintptr, cls string, mode byte, site string) uint64 {
 	g := goid()
 	if !enabled.Load() {
 		return g
 	}
 	mu.Lock()
 	st := state(g)
-	pin(own, unsafe.Pointer(addr), addr) //nolint: the address was just derived from a live pointer by the caller
+	pin(own, ptr, addr)
 	logEv(event{ev: 'w', mode: mode, g: g, addr: addr, own: own, cls: cls, site: site})
 	// hazards that need no partner
 	for _, h := range st.held {
@@ -174,11 +182,120 @@ func want(addr, own uintptr, cls string, mode byte, site string) uint64 {
 	if plan != nil {
 		gate(g, st, addr, cls, mode, site)
 	}
+	wantCounter++
+	st.waiting, st.wantAddr, st.wantMode, st.wantCls, st.wantSite, st.wantAt, st.wantSeq = true, addr, mode, cls, site, time.Now(), wantCounter
+	if now := st.wantAt; now.Sub(lastStuckCheck) > time.Second {
+		lastStuckCheck = now
+		checkStuck(g, 3*time.Second)
+	}
 	mu.Unlock()
 	return g
 }
 
-func got(g uint64, addr, own uintptr, cls string, mode byte, site string, try bool) {
+var (
+	wantCounter    uint64
+	lastStuckCheck time.Time
+)
+
+// checkStuck looks for a deadlock that HAPPENED (no gate involved): goroutines that have been inside a blocking Lock/RLock
+// for at least minWait and wait for each other in a cycle. The books are conservative: a lock is "held" from after the
+// blocking call returned until before the unlocking call, i.e. only while it is really held, so a cycle in the books is a
+// cycle in reality. mu held. self = the calling goroutine (its own wait has not begun).
+func checkStuck(self uint64, minWait time.Duration) {
+	now := time.Now()
+	var ws []*parkedG
+	wseq := map[uint64]uint64{}
+	for g, st := range gs {
+		if g == self || !st.waiting || now.Sub(st.wantAt) < minWait {
+			continue
+		}
+		ws = append(ws, &parkedG{g: g, role: -1, wantAddr: st.wantAddr, wantMode: st.wantMode, wantCls: st.wantCls, wantSite: st.wantSite,
+			held: append([]heldLock(nil), st.held...)})
+		wseq[g] = st.wantSeq
+	}
+	if len(ws) < 1 {
+		return
+	}
+	blocksReal := func(q, p *parkedG) bool {
+		for _, h := range q.held {
+			if h.addr == p.wantAddr && (p.wantMode == 'w' || h.mode == 'w') {
+				return true
+			}
+		}
+		// a writer that called Lock BEFORE the reader called RLock excludes it
+		return q != p && p.wantMode == 'r' && q.wantAddr == p.wantAddr && q.wantMode == 'w' && wseq[q.g] < wseq[p.g]
+	}
+	for _, s := range ws {
+		path := []*parkedG{s}
+		var dfs func(cur *parkedG) bool
+		dfs = func(cur *parkedG) bool {
+			for _, q := range ws {
+				if !blocksReal(q, cur) {
+					continue
+				}
+				if q == s {
+					return true
+				}
+				dup := false
+				for _, x := range path {
+					if x == q {
+						dup = true
+					}
+				}
+				if dup {
+					continue
+				}
+				path = append(path, q)
+				if dfs(q) {
+					return true
+				}
+				path = path[:len(path)-1]
+			}
+			return false
+		}
+		if dfs(s) {
+			// Reported only when the SAME cycle (same goroutines, same blocking calls) is seen twice, at least two
+			// seconds apart: a goroutine that is merely not being scheduled on a loaded machine makes progress in between.
+			sig := ""
+			for _, c := range path {
+				sig += fmt.Sprintf("%d/%d;", c.g, wseq[c.g])
+			}
+			if sig == stuckSig && now.Sub(stuckAt) >= 2*time.Second {
+				demo := make([]parkedG, len(path))
+				for i, c := range path {
+					demo[i] = *c
+				}
+				abortDemonstrated("observed", demo)
+			}
+			if sig != stuckSig {
+				stuckSig, stuckAt = sig, now
+				time.AfterFunc(2100*time.Millisecond, func() { mu.Lock(); checkStuck(0, minWait); mu.Unlock() })
+			}
+			return
+		}
+	}
+}
+
+var (
+	stuckSig string
+	stuckAt  time.Time
+)
+
+// CheckStuck is called by the harness when a workload does not terminate.
+func CheckStuck() {
+	if !enabled.Load() {
+		return
+	}
+	mu.Lock()
+	checkStuck(0, time.Second)
+	mu.Unlock()
+	time.Sleep(2200 * time.Millisecond)
+	mu.Lock()
+	checkStuck(0, time.Second) // does not return if the cycle of the first look is still there
+	mu.Unlock()
+}
+
+func got(g uint64, ptr unsafe.Pointer, addr, own uintptr, cls string, mode byte, site string, try bool) {
 	if !enabled.Load() {
 		return
 	}
@@ -188,7 +305,8 @@ func got(g uint64, addr, own uintptr, cls string, mode byte, site string, try bo
 	if try {
 		ev = 't'
 	}
-	pin(own, unsafe.Pointer(addr), addr)
+	pin(own, ptr, addr)
+	st.waiting = false
 	logEv(event{ev: ev, mode: mode, g: g, addr: addr, own: own, cls: cls, site: site})
 	st.held = append(st.held, heldLock{addr: addr, own: own, mode: mode, cls: cls, site: site})
 	mu.Unlock()
@@ -217,9 +335,9 @@ func p(m unsafe.Pointer) uintptr { return uintptr(m) }
 
 func MLock(m *sync.Mutex, cls string, off int, site string) {
 	a := p(unsafe.Pointer(m))
-	g := want(a, owner(a, off), cls, 'w', site)
+	g := want(unsafe.Pointer(m), a, owner(a, off), cls, 'w', site)
 	m.Lock()
-	got(g, a, owner(a, off), cls, 'w', site, false)
+	got(g, unsafe.Pointer(m), a, owner(a, off), cls, 'w', site, false)
 }
 func MUnlock(m *sync.Mutex, cls string, off int, site string) {
 	a := p(unsafe.Pointer(m))
@@ -230,15 +348,15 @@ func MTryLock(m *sync.Mutex, cls string, off int, site string) bool {
 	a := p(unsafe.Pointer(m))
 	ok := m.TryLock()
 	if ok {
-		got(goid(), a, owner(a, off), cls, 'w', site, true)
+		got(goid(), unsafe.Pointer(m), a, owner(a, off), cls, 'w', site, true)
 	}
 	return ok
 }
 func RWLock(m *sync.RWMutex, cls string, off int, site string) {
 	a := p(unsafe.Pointer(m))
-	g := want(a, owner(a, off), cls, 'w', site)
+	g := want(unsafe.Pointer(m), a, owner(a, off), cls, 'w', site)
 	m.Lock()
-	got(g, a, owner(a, off), cls, 'w', site, false)
+	got(g, unsafe.Pointer(m), a, owner(a, off), cls, 'w', site, false)
 }
 func RWUnlock(m *sync.RWMutex, cls string, off int, site string) {
 	a := p(unsafe.Pointer(m))
@@ -247,9 +365,9 @@ func RWUnlock(m *sync.RWMutex, cls string, off int, site string) {
 }
 func RWRLock(m *sync.RWMutex, cls string, off int, site string) {
 	a := p(unsafe.Pointer(m))
-	g := want(a, owner(a, off), cls, 'r', site)
+	g := want(unsafe.Pointer(m), a, owner(a, off), cls, 'r', site)
 	m.RLock()
-	got(g, a, owner(a, off), cls, 'r', site, false)
+	got(g, unsafe.Pointer(m), a, owner(a, off), cls, 'r', site, false)
 }
 func RWRUnlock(m *sync.RWMutex, cls string, off int, site string) {
 	a := p(unsafe.Pointer(m))
@@ -260,7 +378,7 @@ func RWTryLock(m *sync.RWMutex, cls string, off int, site string) bool {
 	a := p(unsafe.Pointer(m))
 	ok := m.TryLock()
 	if ok {
-		got(goid(), a, owner(a, off), cls, 'w', site, true)
+		got(goid(), unsafe.Pointer(m), a, owner(a, off), cls, 'w', site, true)
 	}
 	return ok
 }
@@ -268,7 +386,7 @@ func RWTryRLock(m *sync.RWMutex, cls string, off int, site string) bool {
 	a := p(unsafe.Pointer(m))
 	ok := m.TryRLock()
 	if ok {
-		got(goid(), a, owner(a, off), cls, 'r', site, true)
+		got(goid(), unsafe.Pointer(m), a, owner(a, off), cls, 'r', site, true)
 	}
 	return ok
 }
@@ -278,9 +396,9 @@ func RWTryRLock(m *sync.RWMutex, cls string, off int, site string) bool {
 func MLockP(pp **sync.Mutex, cls string, off int, site string) {
 	m, o := *pp, owner(p(unsafe.Pointer(pp)), off)
 	a := p(unsafe.Pointer(m))
-	g := want(a, o, cls, 'w', site)
+	g := want(unsafe.Pointer(m), a, o, cls, 'w', site)
 	m.Lock()
-	got(g, a, o, cls, 'w', site, false)
+	got(g, unsafe.Pointer(m), a, o, cls, 'w', site, false)
 }
 func MUnlockP(pp **sync.Mutex, cls string, off int, site string) {
 	m, o := *pp, owner(p(unsafe.Pointer(pp)), off)
@@ -291,16 +409,16 @@ func MTryLockP(pp **sync.Mutex, cls string, off int, site string) bool {
 	m, o := *pp, owner(p(unsafe.Pointer(pp)), off)
 	ok := m.TryLock()
 	if ok {
-		got(goid(), p(unsafe.Pointer(m)), o, cls, 'w', site, true)
+		got(goid(), unsafe.Pointer(m), p(unsafe.Pointer(m)), o, cls, 'w', site, true)
 	}
 	return ok
 }
 func RWLockP(pp **sync.RWMutex, cls string, off int, site string) {
 	m, o := *pp, owner(p(unsafe.Pointer(pp)), off)
 	a := p(unsafe.Pointer(m))
-	g := want(a, o, cls, 'w', site)
+	g := want(unsafe.Pointer(m), a, o, cls, 'w', site)
 	m.Lock()
-	got(g, a, o, cls, 'w', site, false)
+	got(g, unsafe.Pointer(m), a, o, cls, 'w', site, false)
 }
 func RWUnlockP(pp **sync.RWMutex, cls string, off int, site string) {
 	m, o := *pp, owner(p(unsafe.Pointer(pp)), off)
@@ -310,9 +428,9 @@ func RWUnlockP(pp **sync.RWMutex, cls string, off int, site string) {
 func RWRLockP(pp **sync.RWMutex, cls string, off int, site string) {
 	m, o := *pp, owner(p(unsafe.Pointer(pp)), off)
 	a := p(unsafe.Pointer(m))
-	g := want(a, o, cls, 'r', site)
+	g := want(unsafe.Pointer(m), a, o, cls, 'r', site)
 	m.RLock()
-	got(g, a, o, cls, 'r', site, false)
+	got(g, unsafe.Pointer(m), a, o, cls, 'r', site, false)
 }
 func RWRUnlockP(pp **sync.RWMutex, cls string, off int, site string) {
 	m, o := *pp, owner(p(unsafe.Pointer(pp)), off)
@@ -323,7 +441,7 @@ func RWTryLockP(pp **sync.RWMutex, cls string, off int, site string) bool {
 	m, o := *pp, owner(p(unsafe.Pointer(pp)), off)
 	ok := m.TryLock()
 	if ok {
-		got(goid(), p(unsafe.Pointer(m)), o, cls, 'w', site, true)
+		got(goid(), unsafe.Pointer(m), p(unsafe.Pointer(m)), o, cls, 'w', site, true)
 	}
 	return ok
 }
@@ -331,7 +449,7 @@ func RWTryRLockP(pp **sync.RWMutex, cls string, off int, site string) bool {
 	m, o := *pp, owner(p(unsafe.Pointer(pp)), off)
 	ok := m.TryRLock()
 	if ok {
-		got(goid(), p(unsafe.Pointer(m)), o, cls, 'r', site, true)
+		got(goid(), unsafe.Pointer(m), p(unsafe.Pointer(m)), o, cls, 'r', site, true)
 	}
 	return ok
 }
@@ -504,6 +622,7 @@ type planT struct {
 }
 
 type parkedG struct {
+	inCycle  bool
 	g        uint64
 	role     int
 	wantAddr uintptr
@@ -514,6 +633,8 @@ type parkedG struct {
 }
 
 var (
+	gateDemo     []parkedG // the cycle the gate caught (members are being released into their blocking calls)
+	releasePhase int
 	plan      *planT
 	parked    []*parkedG
 	parkCount []int
@@ -627,22 +748,58 @@ func gate(g uint64, st *gstate, addr uintptr, cls string, mode byte, site string
 			continue
 		}
 		parkStats[fmt.Sprintf("role%d_arrivals", ri)]++
-		if parkCount[ri] >= plan.MaxParks {
+		if parkCount[ri] >= plan.MaxParks || gateDemo != nil {
 			return
+		}
+		// A role that holds nothing (a goroutine that is merely about to Lock: the pending writer of a cycle) is the
+		// last ingredient: it only joins goroutines of other roles that are already parked, it never waits alone.
+		if len(r.Hold) == 0 {
+			other := false
+			for _, q := range parked {
+				if q.role != ri {
+					other = true
+				}
+			}
+			if !other {
+				parkStats[fmt.Sprintf("role%d_passed", ri)]++
+				return
+			}
 		}
 		// do not park a second goroutine in a role that is already occupied unless it is a different goroutine
 		me := &parkedG{g: g, role: ri, wantAddr: addr, wantMode: mode, wantCls: cls, wantSite: site, held: append([]heldLock(nil), st.held...)}
 		parked = append(parked, me)
 		parkCount[ri]++
-		if cyc := findCycle(); cyc != nil {
-			demo := make([]parkedG, len(cyc))
+		if cyc := findCycle(); cyc != nil && gateDemo == nil {
+			// The predicted state is reached on real goroutines. It is not reported yet: the members are now let into
+			// their blocking calls - the goroutines about to Lock first, the readers 100 ms later, which is the order of
+			// the predicted schedule - and only if they are then REALLY blocked on each other for seconds (checkStuck on
+			// the conservative books) is the deadlock recorded and the process stopped. Otherwise the prediction stays
+			// unconfirmed and the workload simply goes on.
+			gateDemo = make([]parkedG, len(cyc))
 			for i, c := range cyc {
-				demo[i] = *c
+				gateDemo[i] = *c
+				c.inCycle = true
 			}
-			abortDemonstrated(plan.Key, demo)
+			releasePhase = 1
+			parkStats["cycles_caught"]++
+			time.AfterFunc(100*time.Millisecond, func() { mu.Lock(); releasePhase = 2; mu.Unlock() })
+			time.AfterFunc(3*time.Second, func() { mu.Lock(); checkStuck(0, 2*time.Second); mu.Unlock() }) // looks again 2.1 s later
+			time.AfterFunc(8*time.Second, func() {
+				// still running: the released goroutines did not stay blocked on each other
+				mu.Lock()
+				parkStats["cycles_not_blocking"]++
+				writeGateOnly()
+				mu.Unlock()
+			})
 		}
 		deadline := time.Now().Add(time.Duration(plan.TimeoutMs) * time.Millisecond)
 		for time.Now().Before(deadline) {
+			if me.inCycle && (releasePhase == 2 || (releasePhase == 1 && me.wantMode == 'w')) {
+				break
+			}
+			if me.inCycle {
+				deadline = time.Now().Add(time.Second)
+			}
 			mu.Unlock()
 			time.Sleep(500 * time.Microsecond)
 			mu.Lock()
@@ -652,6 +809,9 @@ func gate(g uint64, st *gstate, addr uintptr, cls string, mode byte, site string
 				parked = append(parked[:i], parked[i+1:]...)
 				break
 			}
+		}
+		if me.inCycle {
+			return
 		}
 		parkStats[fmt.Sprintf("role%d_timeouts", ri)]++
 		return
@@ -680,6 +840,9 @@ func abortDemonstrated(key string, cyc []parkedG) {
 		Stats map[string]int `json:"stats"`
 	}
 	out.Key = key
+	if key == "observed" && gateDemo != nil && plan != nil {
+		out.Key = "observed-after-gate:" + plan.Key
+	}
 	out.Stats = parkStats
 	for _, c := range cyc {
 		d := demoG{G: c.g, Role: c.role, Want: demoLock{c.wantCls, uint64(c.wantAddr), string(rune(c.wantMode)), c.wantSite}}
@@ -693,6 +856,24 @@ func abortDemonstrated(key string, cyc []parkedG) {
 	flushLocked()
 	fmt.Fprintf(os.Stderr, "zzvlk: DEADLOCK DEMONSTRATED (%s): %s\n", key, b)
 	os.Exit(97)
+}
+
+// writeGateOnly: the gate saw the predicted state but the goroutines did not stay blocked: diagnostics only. mu held.
+func writeGateOnly() {
+	var out struct {
+		Key   string  `json:"key"`
+		Cycle []demoG `json:"cycle"`
+	}
+	out.Key = plan.Key
+	for _, c := range gateDemo {
+		d := demoG{G: c.g, Role: c.role, Want: demoLock{c.wantCls, uint64(c.wantAddr), string(rune(c.wantMode)), c.wantSite}}
+		for _, h := range c.held {
+			d.Held = append(d.Held, demoLock{h.cls, uint64(h.addr), string(rune(h.mode)), h.site})
+		}
+		out.Cycle = append(out.Cycle, d)
+	}
+	b, _ := json.MarshalIndent(out, "", " ")
+	os.WriteFile(filepath.Join(os.Getenv("VERIF_OUT"), "gate_only.json"), b, 0o644)
 }
 
 // GateStats is written by the harness into its result.
